@@ -48,6 +48,60 @@ fn obs_borrowed(bytes: &[u8]) -> Value {
     }
 }
 
+fn clone_into_slot(t: &OwnedTerm, how: char) -> OwnedTerm {
+    use erltf::types::{ExternalPid, ExternalPort, ExternalReference};
+    let other = erltf::Atom::new("other@host");
+    let loc = how == 'F';
+    // some other identifier's preserved bytes: a LOCAL_EXT body (hash, then the identifier in its plain encoding)
+    let body = |plain: &OwnedTerm| -> Vec<u8> {
+        let mut b = vec![9u8, 9, 9, 9, 9, 9, 9, 9];
+        b.extend_from_slice(&erltf::encode(plain).map(|e| e[1..].to_vec()).unwrap_or_default());
+        b
+    };
+    match t {
+        OwnedTerm::Pid(p) => {
+            let plain = ExternalPid::new(other.clone(), 4242, 1, 9);
+            let mut slot = if loc { ExternalPid::with_local_ext_bytes(other, 4242, 1, 9, body(&OwnedTerm::Pid(plain.clone()))) } else { plain };
+            if how == 'v' {
+                let mut sv = vec![slot];
+                sv.clone_from(&vec![p.clone()]);
+                return OwnedTerm::Pid(sv.pop().unwrap());
+            }
+            slot.clone_from(p);
+            OwnedTerm::Pid(slot)
+        }
+        OwnedTerm::Port(p) => {
+            let plain = ExternalPort::new(other.clone(), 4242, 9);
+            let mut slot = if loc { ExternalPort::with_local_ext_bytes(other, 4242, 9, body(&OwnedTerm::Port(plain.clone()))) } else { plain };
+            if how == 'v' {
+                let mut sv = vec![slot];
+                sv.clone_from(&vec![p.clone()]);
+                return OwnedTerm::Port(sv.pop().unwrap());
+            }
+            slot.clone_from(p);
+            OwnedTerm::Port(slot)
+        }
+        OwnedTerm::Reference(r) => {
+            let plain = ExternalReference::new(other.clone(), 9, vec![1, 2, 3, 4, 5]);
+            let mut slot = if loc { ExternalReference::with_local_ext_bytes(other, 9, vec![1, 2, 3, 4, 5], body(&OwnedTerm::Reference(plain.clone()))) } else { plain };
+            if how == 'v' {
+                let mut sv = vec![slot];
+                sv.clone_from(&vec![r.clone()]);
+                return OwnedTerm::Reference(sv.pop().unwrap());
+            }
+            slot.clone_from(r);
+            OwnedTerm::Reference(slot)
+        }
+        OwnedTerm::Tuple(e) => OwnedTerm::Tuple(e.iter().map(|x| if matches!(x, OwnedTerm::Pid(_) | OwnedTerm::Port(_) | OwnedTerm::Reference(_)) { clone_into_slot(x, how) } else { x.clone() }).collect()),
+        OwnedTerm::List(e) => OwnedTerm::List(e.iter().map(|x| if matches!(x, OwnedTerm::Pid(_) | OwnedTerm::Port(_) | OwnedTerm::Reference(_)) { clone_into_slot(x, how) } else { x.clone() }).collect()),
+        other_term => {
+            let mut slot = OwnedTerm::Pid(ExternalPid::new(other, 4242, 1, 9));
+            slot.clone_from(other_term);
+            slot
+        }
+    }
+}
+
 /// conversion scripts of C10: c = clone, b = to-borrowed-and-back, m = move through a Vec
 fn convert(t: OwnedTerm, script: &str) -> OwnedTerm {
     let mut cur = t;
@@ -68,6 +122,9 @@ fn convert(t: OwnedTerm, script: &str) -> OwnedTerm {
                 let mut it = v.into_iter();
                 it.next().unwrap()
             }
+            // Clone::clone_from into a value that already holds another identifier: f = a plain one, F = a node-local one, v = the same through
+            // Vec::clone_from (identifiers at the top and one level down in tuples and lists; anything else through OwnedTerm::clone_from)
+            'f' | 'F' | 'v' => clone_into_slot(&cur, ch),
             _ => cur,
         };
     }
